@@ -5,7 +5,7 @@ CONSTANTS
   ProcsSet = {1, 16}
   Reps = {1, 2}
   Digests = {"d1", "d2"}
-  MaxRuns = 4
+  MaxRuns = 3
 INIT Init
 NEXT Next
 INVARIANTS Functional OutIsHist
